@@ -6,6 +6,7 @@
 
 #![allow(dead_code)]
 
+mod alloc;
 mod core;
 mod faultio;
 mod fx;
@@ -70,6 +71,9 @@ fn usage() -> ! {
     eprintln!("usage: rsbdd-dst check <Cxx> <quick|thorough> | replay <file> | digest <Cxx> <runs>");
     std::process::exit(2);
 }
+
+#[global_allocator]
+static GLOBAL: alloc::SimAlloc = alloc::SimAlloc;
 
 fn main() {
     core::install_quiet_panic_hook();
@@ -336,6 +340,10 @@ fn check(property: &str, tier: &str) {
     }
     for l in &violation_lines {
         println!("{l}");
+    }
+    let timeouts = sims::rgsim::CHILD_TIMEOUTS.load(std::sync::atomic::Ordering::Relaxed);
+    if timeouts > 0 {
+        println!("NOTE: {timeouts} child process(es) exceeded the {} s wall-clock limit, were killed and are not judged", sims::rgsim::CHILD_WALL_LIMIT_S);
     }
     let wall = start.elapsed().as_secs_f64();
     write_evidence(&Evidence {
